@@ -213,6 +213,9 @@ class Matcher:
             self.add("op_result", n, expected=evals, nb=nb, actual=actual)
 
     def check_sequence(self, n, tag, inst, exp, seg):
+        stray = [r for r in seg if r["k"] == "cb+" and r["i"] != tag and r["e"] == n]
+        if stray:
+            self.add("cross_instance", n, op_inst=tag, cb=stray[0]["c"], other=stray[0]["i"])
         cbs = [r for r in seg if r["k"] == "cb+" and r["i"] == tag]
         ends = {r["r"]: r for r in seg if r["k"] == "cb-"}
         ns = {}
